@@ -19,8 +19,11 @@ ok, out = ck.forbidden_vernac()
 if not ok:
     broken.append(("forbidden-vernacular", out))
 
-# 1. theorems
-ok, out = ck.coq_make(["Model/C17_Check.vo", "Proofs/C17.vo", "Examples/C17.vo"])
+# 1. translator (source shape of lint()'s merge and of color/Results) + theorems
+ok, out = ck.genmodel()
+if not ok:
+    broken.append(("genmodel", out[-2000:]))
+ok, out = ck.coq_make(["Model/C17_Check.vo", "Model/C17_Shape.vo", "Gen/C17_LintShape.vo", "Proofs/C17.vo", "Examples/C17.vo"])
 if not ok:
     broken.append(("coq-make", out[-3000:]))
     ok2, out2 = ck.coq_make(["Model/C17_Check.vo"])
